@@ -124,15 +124,35 @@ def build_objs(variant="plain", with_cli=False, extra_defs=()):
     return objs, key
 
 
-def _gc_build(keep=6):
-    """Bound disk use: keep only the most recent object/bin directories."""
+def _gc_build(keep=6, min_age_s=6 * 3600):
+    """Bound disk use: drop cache directories beyond the most recent ones - but never one used within the last hours
+    (several checks, seeded-change runs and background runs share these caches; a directory is touched on every use)."""
+    now = time.time()
     for sub in ("obj", "bin", "tlc"):
         root = os.path.join(BUILD, sub)
         if not os.path.isdir(root):
             continue
-        ds = sorted((os.path.join(root, x) for x in os.listdir(root)), key=os.path.getmtime, reverse=True)
+        try:
+            ds = sorted((os.path.join(root, x) for x in os.listdir(root)), key=os.path.getmtime, reverse=True)
+        except OSError:
+            continue
         for old in ds[keep * 3:]:
-            shutil.rmtree(old, ignore_errors=True)
+            try:
+                if now - os.path.getmtime(old) > min_age_s:
+                    shutil.rmtree(old, ignore_errors=True)
+            except OSError:
+                pass
+
+
+def cache_dir(kind, key):
+    """path of a TLC-result cache directory; touching it marks it as in use"""
+    d = os.path.join(BUILD, "tlc", "%s-%s" % (kind, key))
+    if os.path.isdir(d):
+        try:
+            os.utime(d)
+        except OSError:
+            pass
+    return d
 
 
 def link(name, harness_srcs, variant="plain", with_cli=False, libs=(), extra_defs=(), repo_srcs_override=None):
